@@ -27,6 +27,8 @@
  *
  */
  
+#include <cstdio>
+#include <cstdlib>
 #include <tins/pdu.h>
 #include <tins/packet_sender.h>
 
@@ -41,6 +43,30 @@ namespace Internals {
 // write_serialization modified a byte of the region that belongs to its inner layers 
 // (offset -2: buffer smaller than header + trailer, -3: header size changed while writing)
 void (*verif_region_hook)(int, long) = 0;
+// Verification hook (guard TINS_VERIF_HOOKS): trace lines of the stateful components (DataTracker).
+// The writer is installed during static initialisation, i.e. before any thread exists.
+void (*verif_trace_hook)(const char*) = 0;
+namespace {
+FILE* verif_trace_file = 0;
+void verif_trace_write(const char* line) {
+    if (verif_trace_file) {
+        fputs(line, verif_trace_file);
+        fputc('\n', verif_trace_file);
+        fflush(verif_trace_file);
+    }
+}
+struct VerifTraceInit {
+    VerifTraceInit() {
+        const char* path = getenv("TINS_VERIF_TRACE");
+        if (path && *path) {
+            verif_trace_file = fopen(path, "a");
+            if (verif_trace_file) {
+                verif_trace_hook = &verif_trace_write;
+            }
+        }
+    }
+} verif_trace_init;
+} // anonymous namespace
 } // Internals
 #endif // TINS_VERIF_HOOKS
 
